@@ -8,8 +8,8 @@ EXTENDS ObjModel, Json, IOUtils, SequencesExt
 \* prediction.  A mismatch never stops the replay: it is recorded (step, observation, clause) and
 \* the replay continues; ObjModel's invariants are evaluated on every reference state reached.
 Recs == ndJsonDeserialize(IOEnv.OBS_FILE)       \* [id, dv, h, steps : Seq([out, obs]), cut]
-VARIABLES t_id, t_l, t_dev, t_taint, t_mis, t_cnt, t_status     \* the reference state is ObjModel's m_st
-t_vars == <<t_id, t_l, t_dev, t_taint, t_mis, t_cnt, t_status>>
+VARIABLES t_rec, t_l, t_dev, t_taint, t_mis, t_cnt, t_status     \* the reference state is ObjModel's m_st
+t_vars == <<t_rec, t_l, t_dev, t_taint, t_mis, t_cnt, t_status>>
 SeqSet(sq) == {sq[j] : j \in 1..Len(sq)}
 DvOf(r) == SeqSet(r.dv)
 
@@ -29,11 +29,12 @@ ObsVerdict(sr, sd, dv, taint, ob, act) ==
                ELSE <<"violation", "">>
   ELSE <<"violation", "">>
 
-TInit == /\ t_id \in 1..Len(Recs)
+\* the record is copied into the state: Recs is a Java-backed operator that TLC re-evaluates at every use
+TInit == /\ LET all == Recs IN t_rec \in {all[j] : j \in 1..Len(all)}
          /\ t_l = 1
          /\ MInit
-         /\ t_dev = State0D(DvOf(Recs[t_id]))
-         /\ t_taint = DvOf(Recs[t_id]) \cap {"Dev_FnProtoNoObjectProto"}
+         /\ t_dev = State0D(DvOf(t_rec))
+         /\ t_taint = DvOf(t_rec) \cap {"Dev_FnProtoNoObjectProto"}
          /\ t_mis = <<>>
          /\ t_cnt = [steps |-> 0, obs |-> 0, known |-> 0, viol |-> 0]
          /\ t_status = "run"
@@ -42,12 +43,12 @@ MisRec(l, j, v, ob, exp, act) == [l |-> l, j |-> j, v |-> v[1], dev |-> v[2], ob
 NoOb == Ob("step", "", "", "")
 
 TStep ==
-  LET rec == Recs[t_id]
+  LET rec == t_rec
       dv == DvOf(rec)
       o == rec.h[t_l]
       a == rec.steps[t_l]
   IN IF ~Applicable(m_st, o, t_l)
-     THEN /\ t_status' = "inapplicable" /\ UNCHANGED <<t_id, t_l, t_dev, t_taint, t_mis, t_cnt, m_vars>>
+     THEN /\ t_status' = "inapplicable" /\ UNCHANGED <<t_rec, t_l, t_dev, t_taint, t_mis, t_cnt, m_vars>>
      ELSE
        LET rr == Step(m_st, {}, o)
            rd == DevStep(t_dev, dv, o)
@@ -76,14 +77,14 @@ TStep ==
                        known |-> t_cnt.known + nk, viol |-> t_cnt.viol + nv]
           /\ t_l' = t_l + 1
           /\ t_status' = IF t_l = Len(rec.steps) THEN "done" ELSE "run"
-          /\ UNCHANGED t_id
+          /\ UNCHANGED t_rec
 
 TNext == /\ t_status = "run"
-         /\ IF t_l > Len(Recs[t_id].steps)
-            THEN t_status' = "done" /\ UNCHANGED <<t_id, t_l, t_dev, t_taint, t_mis, t_cnt, m_vars>>
+         /\ IF t_l > Len(t_rec.steps)
+            THEN t_status' = "done" /\ UNCHANGED <<t_rec, t_l, t_dev, t_taint, t_mis, t_cnt, m_vars>>
             ELSE TStep
 TReport == t_status = "run" \/
-           PrintT(ToJson([id |-> Recs[t_id].id, status |-> t_status, cut |-> Recs[t_id].cut, cnt |-> t_cnt,
+           PrintT(ToJson([id |-> t_rec.id, status |-> t_status, cut |-> t_rec.cut, cnt |-> t_cnt,
                           mis |-> t_mis, taint |-> t_taint]))
 TInv == ModelInv /\ Frame
 =============================================================================
